@@ -201,6 +201,13 @@ LOOPS = ("WhileStmt", "DoStmt", "ForStmt")
 C_SUFFIXES = (".c", ".cc", ".cpp")
 
 
+# files whose static character arrays are inventoried (a path kept in static storage across the master apply can be
+# overwritten by a re-entrant call: seeded change C15-5)
+# globals that feed a file-system call without a check at the use: every store must be guarded where it happens
+GUARDED_GLOBALS = ("inc_list",)
+COPY_CALLS = ("make_shared_string", "string_copy", "alloc_cstring", "xstrdup")
+STATIC_FILES = ("lib/efuns/file_utils.c", "lib/efuns/file.c", "lib/efuns/ed.c", "lib/lpc/program/binaries.c",
+                "lib/lpc/lex.c", "lib/lpc/preprocess.c", "lib/lpc/object.c", "lib/efuns/dumpstat.c", "lib/efuns/dump_prog.c")
 LITERAL_FNS = ("legal_path", "check_valid_path", "inc_lexically_normal", "inc_open", "match_string")
 
 
@@ -950,7 +957,28 @@ def _analyze_file(job):
         fa = os.path.realpath(f)
         if fa == main_abs or (f.endswith(C_SUFFIXES) and relname(f) is not None):
             fns.append((n, f, relname(f)))
-    out = dict(rel=rel, included=sorted(included), sites=[], calls=[], addr=[], defs=[], cvp=[], lits=[], ext=[])
+    out = dict(rel=rel, included=sorted(included), sites=[], calls=[], addr=[], defs=[], cvp=[], lits=[], ext=[], statics=[], gstores=[])
+
+    def char_array(node):
+        q = qual(node)
+        return bool(re.match(r"^(const\s+)?(unsigned\s+|signed\s+)?char\s*\[", q))
+
+    def walk_statics(node, fname, frel):
+        for c in node.get("inner") or []:
+            if not isinstance(c, dict):
+                continue
+            if c.get("kind") == "VarDecl" and c.get("storageClass") == "static" and char_array(c):
+                out["statics"].append(dict(file=frel, fn=fname, name=c.get("name"), type=qual(c)))
+            walk_statics(c, fname, frel)
+
+    # character arrays that outlive a call: file scope (any linkage) and function-scope `static`
+    for n in root.get("inner") or []:
+        if n.get("kind") == "VarDecl" and char_array(n) and n.get("storageClass") != "extern":
+            loc = n.get("loc") or {}
+            loc = loc.get("expansionLoc") or loc
+            f = loc.get("_f")
+            if f and (os.path.realpath(f) == main_abs or (f.endswith(C_SUFFIXES) and relname(f) is not None)):
+                out["statics"].append(dict(file=relname(f), fn="", name=n.get("name"), type=qual(n)))
     fobjs = []
     for (n, f, frel) in fns:
         try:
@@ -960,6 +988,7 @@ def _analyze_file(job):
         fobjs.append((n, fn, frel))
         tu.fns[fn.name] = fn
     for (n, fn, frel) in fobjs:
+        walk_statics(n, fn.name, frel)
         out["defs"].append(dict(name=fn.name, file=frel, tu=rel, static=fn.static, nparams=len(fn.params),
                                 line=(n.get("loc") or {}).get("_l") or fn.line(n)))
         callee_nodes = set()
@@ -1003,6 +1032,31 @@ def _analyze_file(job):
                     origins = [_safe_classify(fn, a) for a in args]
                     out["calls"].append(dict(file=frel, tu=rel, caller=fn.name, callee=name, line=line,
                                              origins=origins))
+        # stores into the global include search path `inc_list[..] = X`: X must be 0 or a copy of a local that a
+        # PRECEDING legal_path () call of the same function guards (data flow into the fallback of inc_open)
+        for x in fn.nodes:
+            if x["kind"] == "BinaryOperator" and x.get("opcode") == "=" and len(x.get("inner") or []) == 2:
+                lhs = peel(x["inner"][0])
+                if lhs is None or lhs.get("kind") != "ArraySubscriptExpr":
+                    continue
+                base = peel((lhs.get("inner") or [None])[0])
+                if base is None or base.get("kind") != "DeclRefExpr" or \
+                        (base.get("referencedDecl") or {}).get("name") not in GUARDED_GLOBALS:
+                    continue
+                rhs = peel(x["inner"][1])
+                kind = "other"
+                if rhs is not None and rhs.get("kind") == "IntegerLiteral" and str(rhs.get("value")) == "0":
+                    kind = "null"
+                elif rhs is not None and rhs.get("kind") == "CallExpr" and call_args(rhs):
+                    a0 = call_args(rhs)[0]
+                    v = fn.local_ref(a0)
+                    if v is not None and callee_name(rhs) in COPY_CALLS and \
+                            any(g <= fn.bpos(x) for g in fn.guard_pos.get(v, [])) and \
+                            not any(e["pos"] > max(g for g in fn.guard_pos.get(v, [0]) if g <= fn.bpos(x)) and e["pos"] < fn.bpos(x)
+                                    for e in fn.events.get(v, [])):
+                        kind = "guarded"
+                out["gstores"].append(dict(file=frel, fn=fn.name, glob=(base.get("referencedDecl") or {}).get("name"),
+                                           rhs=cut(fn.text(x["inner"][1]), 60), kind=kind))
         if fn.name in LITERAL_FNS:
             # every character / string literal of the function, in source order (fingerprint of its comparisons)
             lits = []
@@ -1010,7 +1064,11 @@ def _analyze_file(job):
                 if x["kind"] == "CharacterLiteral":
                     lits.append((fn.bpos(x), "c%d" % int(x.get("value", 0))))
                 elif x["kind"] == "StringLiteral" and len(str(x.get("value", ""))) <= 6:
-                    # short strings only (the search pattern "/."); trace / error message texts are not logic
+                    # short strings only (the search pattern "/."); trace / error message texts are not logic,
+                    # nor are strings that come out of a macro body (the "WARN" tag of debug_warn ...)
+                    b = (x.get("range") or {}).get("begin") or {}
+                    if "spellingLoc" in b or "expansionLoc" in b:
+                        continue
                     lits.append((fn.bpos(x), "s" + str(x.get("value", ""))))
             out["lits"].append(dict(fn=fn.name, file=frel, lits=[v for (_, v) in sorted(lits)]))
         for x in fn.nodes:
@@ -1138,8 +1196,12 @@ def analyze(repo, bdir, include_flags, overrides=None, jobs=None):
     sites, calls, addr, defs = [], [], [], []
     cvp_calls, lit_rows = [], []
     ext_callees = set()
+    statics = []
+    gstores = []
     for r in results:
         ext_callees.update(r.get("ext", []))
+        statics += r.get("statics", [])
+        gstores += r.get("gstores", [])
         cvp_calls += r.get("cvp", [])
         lit_rows += r.get("lits", [])
         scanned.update(r["included"])
@@ -1239,7 +1301,10 @@ def analyze(repo, bdir, include_flags, overrides=None, jobs=None):
                 sites=sites, calls=rows, fsEfuns=fs_efuns, loaderEfuns=loader_efuns, mediationApplies=med_applies,
                 cvpCalls=sorted(set((c["file"], c["fn"], c["op"], c["flag"]) for c in cvp_calls)),
                 literals=sorted(set((l["fn"], tuple(l["lits"])) for l in lit_rows)),
-                extCallees=sorted(ext_callees - set(FS_CALLEES) - set(FILLS) - set(PASSTHROUGH)))
+                extCallees=sorted(ext_callees - set(FS_CALLEES) - set(FILLS) - set(PASSTHROUGH)),
+                globalStores=sorted(set((x["file"], x["fn"], x["glob"], x["rhs"], x["kind"]) for x in gstores)),
+                staticBufs=sorted(set((x["file"], x["fn"], x["name"], x["type"]) for x in statics
+                                      if x["file"] in STATIC_FILES)))
 
 
 def dedup(rows, keys):
@@ -1350,6 +1415,14 @@ def render(res):
                      "functions declared outside the repository (libc, builtins) that take a character pointer (or are "
                      "variadic) and are called from the scanned files, other than the file-system callees searched "
                      "for, the buffer-filling functions and the strchr family the translator interprets"))
+    out.append(llist("globalStores", "(String × String × String × String × String)",
+                     ["(%s, %s, %s, %s, %s)" % tuple(lstr(x) for x in b) for b in res.get("globalStores", [])],
+                     "every store `G[..] = X` into a global path table (inc_list): (file, function, global, X, kind) with "
+                     "kind = null | guarded (copy of a local guarded by a preceding legal_path) | other"))
+    out.append(llist("staticBufs", "(String × String × String × String)",
+                     ["(%s, %s, %s, %s)" % tuple(lstr(x) for x in b) for b in res.get("staticBufs", [])],
+                     "character arrays with static storage duration in the files of the file efuns, the editor, the "
+                     "saved-binary code and the lexer: (file, function or empty = file scope, name, type)"))
     out.append(llist("loaderEfuns", "String", [lstr(x) for x in res.get("loaderEfuns", [])],
                      "efun implementations that reach the file system only through load_object / #include / "
                      "saved binaries"))
